@@ -1003,6 +1003,29 @@ def emit_fn(unit, blk, rel):
         if f"at loop {k} last" in blk.sections:
             edits.append((toks_b[bc].start, toks_b[bc].start, MARK.format(f"at loop {k} last")))
     body.edit(edits, None)
+    # --- `at let NAME after`: ghost text right after the statement `let [mut] NAME .. ;` (first binding of that name)
+    for key in [k for k in blk.sections if k.startswith("at let ")]:
+        parts = key.split()
+        if len(parts) != 4 or parts[3] != "after":
+            raise ExtractError(f"unsupported directive `{key}` in contract of {name}")
+        toks_b = body.toks()
+        pos = None
+        for i2, t in enumerate(toks_b):
+            if t.text == "let":
+                j2 = i2 + 1
+                if toks_b[j2].text == "mut":
+                    j2 += 1
+                if toks_b[j2].text == parts[2]:
+                    pos = j2
+                    break
+        if pos is None:
+            raise ExtractError(f"lost anchor: contract of {name} has ghost text after `let {parts[2]}`, the body has no such binding")
+        j2 = pos
+        while toks_b[j2].text != ";":
+            if toks_b[j2].text in rtok.OPEN:
+                j2 = match_close(toks_b, j2)
+            j2 += 1
+        body.edit([(toks_b[j2].end, toks_b[j2].end, MARK.format(key))], None)
     # --- closures (R9)
     closure_defs = []
     if blk.closures:
@@ -1122,7 +1145,9 @@ def emit_fn(unit, blk, rel):
         if cut is None or not has_ret:
             inner = inner + MARK.format("at body last")
         else:
-            inner = inner[:cut] + " let __ret = " + inner[cut:].rstrip() + ";" + MARK.format("at body last") + " __ret"
+            mret = re.search(r"->\s*\(\s*\w+\s*:\s*(.*)\)\s*$", blk.sig.strip(), flags=re.S)
+            rty = (": " + mret.group(1).strip()) if mret else ""
+            inner = inner[:cut] + f" let __ret{rty} = " + inner[cut:].rstrip() + ";" + MARK.format("at body last") + " __ret"
     final = "{" + first + inner + "}"
     # --- emit
     unit.emit(f"// ==== extracted: {crate} :: {ctx} :: fn {name}   rules applied: {sorted(set(r for r in body.rules if r))}",
